@@ -241,7 +241,7 @@ class Scope:
             return None
         return self._value_before(name, st, tuple(keep), depth)
 
-    def canon(self, expr, at, keep=(), depth=14, _self_ref=None):
+    def canon(self, expr, at, keep=(), depth=14, _self_ref=None, prune=True):
         """expr with local names replaced by their reaching definitions at `at` (statement or node inside one)"""
         if depth <= 0 or expr is None:
             return expr
@@ -263,7 +263,38 @@ class Scope:
             if d is not None and d is not KILL:
                 mapping[n] = d
         out = sym.subst(expr, mapping) if mapping else sym.clone(expr)
-        return simplify(out)
+        out = simplify(out)
+        if prune and any(isinstance(n, ast.IfExp) for n in ast.walk(out)) and not getattr(self, "_pruning", False):
+            out = self._prune(out, at, keep)
+        return out
+
+    def _prune(self, expr, at, keep):
+        """conditional expressions whose test is decided by the conditions under which `at` executes are replaced by their branch
+        (a name bound in one branch of an earlier `if c:` and used later under the same `if c:`)"""
+        from . import c151718 as H
+        self._pruning = True
+        try:
+            facts = {}
+            for t, pol, a in H.path_condition(at):
+                t2, p2 = au.strip_not(t, pol)
+                facts[au.norm(self.canon(t2, a, keep))] = p2
+                facts[au.norm(t2)] = p2
+        except Exception:      # noqa: BLE001
+            facts = {}
+        finally:
+            self._pruning = False
+        if not facts:
+            return expr
+
+        class P(ast.NodeTransformer):
+            def visit_IfExp(self, n):
+                self.generic_visit(n)
+                t, pol = au.strip_not(n.test, True)
+                k = au.norm(t)
+                if k in facts:
+                    return n.body if facts[k] == pol else n.orelse
+                return n
+        return P().visit(expr)
 
     def conds(self, node, stop=None, keep=()):
         """[(canonical test, polarity)] that hold whenever `node` executes (enclosing tests and earlier early exits)"""
